@@ -4,9 +4,11 @@ Tie C: for every configuration (likelihood family x batch shapes x switches) the
 and `LikelihoodList` routing are compared with the Coq model Models/C12_noise.v: the dense noise
 operator R (exact rationals, vm_compute) built from the likelihood parameters read through the
 public properties, and the closed forms as Expr terms evaluated with mpmath."""
+import contextlib
 import itertools
 import json
 import random
+import warnings
 
 import mpmath
 import torch
@@ -23,7 +25,7 @@ LEVEL_NOTE = ("theorems are about the Gallina model of the noise operators / clo
 IMPORTS = ("From Coq Require Import List ZArith QArith Qcanon.\n"
            "From GPV Require Import Base.LinAlg Base.Exec Base.Expr Models.C12_noise.")
 RUN_DEF = ("Definition case : Type := ((nat * lik_cfg * list Qc * list Qc * list Qc) + "
-           "(list lik_cfg * list nat * option (list (list Qc))))%type.\n"
+           "(list lik_cfg * list nat * option (list (option (list Qc)))))%type.\n"
            "Definition single a : case := inl a.\nDefinition lst b : case := inr b.\n"
            "Definition run (c : case) : list Z :=\n"
            "  match c with inl a => run_c12 a | inr b => run_c12_list b end.")
@@ -40,6 +42,26 @@ def dy(rng, lo=-16, hi=16, den=8.0):
 
 def pos(rng):
     return rng.randint(2, 24) / 16.0
+
+
+def mag(rng, lo=-40, hi=2):
+    """a variance k/16 * 2^e (k = 16..31): magnitudes over many decades (2^-40 ~ 1e-12 .. 8), also below every floor
+    of settings.min_fixed_noise (1e-6 double / 1e-4 float / 1e-3 half) and below the GreaterThan(1e-4) bound"""
+    return rng.randint(16, 31) / 16.0 * 2.0 ** rng.randint(lo, hi)
+
+
+def wide(rng):
+    return mag(rng) if rng.random() < 0.6 else pos(rng)
+
+
+DEFAULT_FLOOR = 1e-6        # settings.min_fixed_noise, documented default for double
+DEFAULT_FLOOR32 = 1e-4      # ... for float
+DEFAULT_LB = 1e-4           # documented default noise constraint GreaterThan(1e-4)
+
+
+def softplus_noise(raw, lb):
+    """the value of a learned noise with raw parameter `raw` under GreaterThan(lb): lb + softplus(raw) (40 digits)"""
+    return float(mpmath.mpf(lb) + mpmath.log1p(mpmath.exp(mpmath.mpf(raw))))
 
 
 def nested(rng, shape, f):
@@ -98,7 +120,7 @@ def gen_fixed(rng, simple=False, force=None):
     nst = n + 1 if mismatch else n
     c = dict(fam="fixed", n=n, lb=lb, db=db, nb=nb, stored=nested(rng, nb + [nst], pos), learn=learn,
              second=nested(rng, lb + [1], pos) if learn else None,
-             call=nested(rng, cb + [n], pos) if call else None, cb=cb if call else None,
+             call=nested(rng, cb + [n], wide if rng.random() < 0.5 else pos) if call else None, cb=cb if call else None,
              with_param=(not mismatch) and rng.random() < 0.2)
     c.update(gen_dist(rng, db, n))
     return c
@@ -152,21 +174,129 @@ def gen_fantasy(rng, base=None, learn=None):
     return c
 
 
-def gen_list(rng, with_noise):
-    k = rng.randint(1, 3)
+def gen_list(rng, with_noise, pattern=None):
+    """pattern (with a noise list): per member True = a tensor entry, False = a None entry (the member then uses its
+    own noise model; only FixedNoise members: the homoskedastic noise documents a Tensor kwarg only)"""
+    k = len(pattern) if pattern is not None else rng.randint(1, 3)
+    if with_noise and pattern is None:
+        pattern = [rng.random() < 0.6 for _ in range(k)]
     members = []
-    for _ in range(k):
-        if with_noise or rng.random() < 0.6:
+    for i in range(k):
+        u = rng.random()
+        if (with_noise and not pattern[i]) or u < 0.45:
             m = gen_fixed(rng, simple=True, force=dict(call=False))
             if m["n"] != len(m["stored"]):      # keep member sizes consistent when noise is routed
                 m["stored"] = m["stored"][:m["n"]]
+            m["with_param"] = False
+        elif u < 0.7:
+            m = gen_hist(rng, call=False, db=[])
             m["with_param"] = False
         else:
             m = gen_gauss(rng, lb=[], db=[])
             m["with_param"] = False
         members.append(m)
-    noises = [nested(rng, [m["n"]], pos) for m in members] if with_noise else None
+    noises = None
+    if with_noise:
+        noises = [nested(rng, [m["n"]], wide if rng.random() < 0.3 else pos) if pattern[i] else None
+                  for i, m in enumerate(members)]
     return dict(fam="list", members=members, noises=noises)
+
+
+def gen_hist(rng, learn=None, call=None, db=None, nops=None):
+    """a FixedNoiseGaussianLikelihood after a history of 0..3 (re)specifications of its noise components: constructor,
+    then any of  lik.noise = v / lik.initialize(noise=v)  (fixed part),  lik.second_noise = s / initialize(second_noise=s)
+    / raw parameter through initialize (learned part),  get_fantasy_likelihood(noise=nw);  finally an optional call-time
+    noise.  The model is given the SPECIFIED values (never what the likelihood reports)."""
+    learn = rng.random() < 0.6 if learn is None else learn
+    n0 = rng.randint(1, 3)
+    # the floor is per dtype: a fifth of the histories run in float32 (compared at float32 tolerances)
+    dtype = "float32" if (db is None and rng.random() < 0.2) else "float64"
+    floor = rng.choice([None, None, None, 2.0 ** -8, 2.0 ** -30 if dtype == "float64" else 2.0 ** -18])
+    fl = (DEFAULT_FLOOR if dtype == "float64" else DEFAULT_FLOOR32) if floor is None else floor
+    lb2 = rng.choice([None, None, 0.0625]) if learn else None
+    lb = DEFAULT_LB if lb2 is None else lb2
+    # values through the SETTER stay at or above the floor (the constructor's rounding is documented, what a setter does
+    # with a value below the floor is not); constructor / fantasy / call-time values go below it
+    above = lambda r: max(mag(r, -22, 2), 2 * fl) if r.random() < 0.5 else pos(r)    # noqa: E731
+    n = n0
+    ops = []
+    for _ in range(rng.randint(0, 3) if nops is None else nops):
+        kinds = ["fixed", "fixed", "fantasy"] + (["second", "second"] if learn else [])
+        kind = rng.choice(kinds)
+        if kind == "fixed":
+            if rng.random() < 0.25:
+                n = rng.randint(1, 4)       # a vector of another length re-specifies the number of points as well
+            ops.append(dict(op="fixed", via=rng.choice(["setter", "initialize"]), v=nested(rng, [n], above)))
+        elif kind == "second":
+            via = rng.choice(["setter", "initialize", "raw", "raw-sub"])
+            if via.startswith("raw"):
+                raw = rng.randint(-80, 40) / 8.0
+                ops.append(dict(op="second", via=via, raw=raw, s=softplus_noise(raw, lb)))
+            else:
+                ops.append(dict(op="second", via=via, s=lb + (mag(rng, -20, 1) if rng.random() < 0.5 else pos(rng))))
+        else:
+            m = rng.randint(1, 2)
+            if n + m > 5:
+                continue
+            ops.append(dict(op="fantasy", nw=nested(rng, [m], wide)))
+            n += m
+    call = rng.random() < 0.35 if call is None else call
+    db = rng.choice([[], [], [2]]) if db is None else db
+    c = dict(fam="hist", n=n, lb=[], db=db, learn=learn, floor=floor, lb2=lb2, init=nested(rng, [n0], wide), dtype=dtype,
+             second0=(lb + pos(rng)) if (learn and rng.random() < 0.5) else None, ops=ops,
+             call=nested(rng, [n], wide) if call else None, with_param=rng.random() < 0.2)
+    c.update(gen_dist(rng, db, n))
+    return c
+
+
+def gen_param_hist(rng, fam):
+    """GaussianLikelihood / MultitaskGaussianLikelihood whose components are (re)specified 1..3 times through the
+    property setters, initialize(name=value), or the raw parameters; the model folds the operations (last one wins)"""
+    if fam == "gauss":
+        c = gen_gauss(rng, lb=[], db=rng.choice([[], [2]]))
+        c["fam"] = "gausshist"
+        ops = []
+        for _ in range(rng.randint(1, 3)):
+            via = rng.choice(["setter", "initialize", "raw", "raw-sub"])
+            if via.startswith("raw"):
+                raw = rng.randint(-80, 40) / 8.0
+                ops.append(dict(via=via, raw=raw, s=softplus_noise(raw, DEFAULT_LB)))
+            else:
+                ops.append(dict(via=via, s=DEFAULT_LB + (mag(rng, -20, 1) if rng.random() < 0.5 else pos(rng))))
+        c["ops"] = ops
+        c["call"] = nested(rng, [c["n"]], wide) if rng.random() < 0.3 else None
+        c["with_param"] = False
+        return c
+    while True:
+        c = gen_multi(rng, "quick")
+        if c["lb"] == [] and (c["hg"] or c["ht"]):
+            break
+    c["fam"] = "multihist"
+    t, rank = c["t"], c["rank"]
+    ops = []
+    for _ in range(rng.randint(1, 3)):
+        kinds = (["glob"] if c["hg"] else []) + ((["task"] if rank == 0 else ["factor"]) if c["ht"] else [])
+        kind = rng.choice(kinds)
+        if kind == "glob":
+            via = rng.choice(["setter", "initialize", "raw"])
+            if via == "raw":
+                raw = rng.randint(-80, 40) / 8.0
+                ops.append(dict(op="glob", via=via, raw=raw, s=softplus_noise(raw, DEFAULT_LB)))
+            else:
+                ops.append(dict(op="glob", via=via, s=DEFAULT_LB + (mag(rng, -20, 1) if rng.random() < 0.5 else pos(rng))))
+        elif kind == "task":
+            via = rng.choice(["setter", "initialize", "raw"])
+            if via == "raw":
+                raws = [rng.randint(-80, 40) / 8.0 for _ in range(t)]
+                ops.append(dict(op="task", via=via, raw=raws, d=[softplus_noise(r, DEFAULT_LB) for r in raws]))
+            else:
+                ops.append(dict(op="task", via=via, d=[DEFAULT_LB + (mag(rng, -20, 1) if rng.random() < 0.5 else pos(rng))
+                                                      for _ in range(t)]))
+        else:
+            ops.append(dict(op="factor", via=rng.choice(["initialize", "data"]),
+                            F=nested(rng, [t, rank], lambda r: r.choice([-1, 1]) * r.randint(1, 8) / 8.0)))
+    c["ops"] = ops
+    return c
 
 
 def gen_configs(rng, tier):
@@ -188,14 +318,27 @@ def gen_configs(rng, tier):
         cfgs.append(gen_gauss(rng))
     for _ in range(40 if q else 300):
         cfgs.append(gen_multi(rng, tier))
-    for wn in (False, True):
-        for _ in range(15 if q else 100):
-            cfgs.append(gen_list(rng, wn))
+    for _ in range(15 if q else 100):
+        cfgs.append(gen_list(rng, False))
     # fantasy likelihoods (own stream: the configurations above stay what they were)
     frng = random.Random(rng.randint(0, 10 ** 9))
     for base, learn in (("fixed", False), ("fixed", True), ("gauss", False)):
         for _ in range((14 if base == "fixed" else 6) if q else 80):
             cfgs.append(gen_fantasy(frng, base=base, learn=learn))
+    # specification histories (own stream)
+    hrng = random.Random(rng.randint(0, 10 ** 9))
+    for learn in (False, True):
+        for nops in (0, 1, 2, 3):
+            for _ in range(8 if q else 50):
+                cfgs.append(gen_hist(hrng, learn=learn, nops=nops))
+    for fam in ("gauss", "multi"):
+        for _ in range(16 if q else 100):
+            cfgs.append(gen_param_hist(hrng, fam))
+    # LikelihoodList with a noise list: every pattern of tensor / None entries for 1..3 members
+    for k in (1, 2, 3):
+        for pattern in itertools.product([True, False], repeat=k):
+            for _ in range(3 if q else 12):
+                cfgs.append(gen_list(hrng, True, pattern=list(pattern)))
     return cfgs
 
 
@@ -235,7 +378,30 @@ def build(c):
         lik = fantasy_likelihood(c)
         mean, cov, y = build_dist(c, c["n"])
         dist = MultivariateNormal(mean, cov)
-    elif fam == "multi":
+    elif fam == "hist":
+        dt = dtype_of(c)
+        lik = hist_likelihood(c)
+        mean, cov, y = (x.to(dt) for x in build_dist(c, c["n"]))
+        dist = MultivariateNormal(mean, cov)
+        if c["call"] is not None:
+            kwargs["noise"] = T(c["call"]).to(dt)
+    elif fam == "gausshist":
+        lik = GaussianLikelihood()
+        lik.noise = T(c["noise"])
+        for op in c["ops"]:
+            if op["via"] == "setter":
+                lik.noise = T([op["s"]])
+            elif op["via"] == "initialize":
+                lik.initialize(noise=T([op["s"]]))
+            elif op["via"] == "raw":
+                lik.initialize(raw_noise=T([op["raw"]]))
+            else:
+                lik.initialize(**{"noise_covar.raw_noise": T([op["raw"]])})
+        mean, cov, y = build_dist(c, c["n"])
+        dist = MultivariateNormal(mean, cov)
+        if c["call"] is not None:
+            kwargs["noise"] = T(c["call"])
+    elif fam in ("multi", "multihist"):
         n, t = c["n"], c["t"]
         lik = MultitaskGaussianLikelihood(num_tasks=t, rank=c["rank"], batch_shape=torch.Size(c["lb"]),
                                           has_global_noise=c["hg"], has_task_noise=c["ht"])
@@ -245,6 +411,17 @@ def build(c):
             lik.task_noises = T(c["task_noises"])
         if c["ht"] and c["rank"] > 0:
             lik.task_noise_covar_factor.data = T(c["F"])
+        for op in c.get("ops", []):
+            name, val = {"glob": ("noise", lambda: T([op["s"]])), "task": ("task_noises", lambda: T(op["d"])),
+                         "factor": ("task_noise_covar_factor", lambda: T(op["F"]))}[op["op"]]
+            if op["via"] == "setter":
+                setattr(lik, name, val())
+            elif op["via"] == "initialize":
+                lik.initialize(**{name: val()})
+            elif op["via"] == "data":
+                lik.task_noise_covar_factor.data = val()
+            else:
+                lik.initialize(**{"raw_" + name: T([op["raw"]] if op["op"] == "glob" else op["raw"])})
         mean, cov, y = build_dist(c, n * t)
         mean = mean.reshape(*mean.shape[:-1], n, t)
         y = y.reshape(*y.shape[:-1], n, t)
@@ -253,7 +430,7 @@ def build(c):
         raise ValueError(fam)
     if c.get("with_param"):
         # a positional "train inputs" argument: only its shape (.., n, d) is used
-        params = (torch.zeros(*c["db"], c["n"], 2),)
+        params = (torch.zeros(*c["db"], c["n"], 2, dtype=dtype_of(c)),)
     lik.eval()
     return lik, dist, y, kwargs, params
 
@@ -265,6 +442,43 @@ class _GP(gpytorch.models.ExactGP):
 
     def forward(self, x):
         return MultivariateNormal(self.mean_module(x), self.covar_module(x))
+
+
+def dtype_of(c):
+    return torch.float32 if c.get("dtype") == "float32" else torch.float64
+
+
+def hist_likelihood(c):
+    """replays the specification history of a "hist" configuration on a FixedNoiseGaussianLikelihood"""
+    dt = dtype_of(c)
+    T = lambda x: torch.tensor(x, dtype=dt)     # noqa: E731
+    floor = contextlib.nullcontext()
+    if c["floor"] is not None:
+        floor = gpytorch.settings.min_fixed_noise(**{"float_value" if dt == torch.float32 else "double_value": c["floor"]})
+    with warnings.catch_warnings(), floor:
+        warnings.simplefilter("ignore")
+        kw = dict(noise_constraint=gpytorch.constraints.GreaterThan(c["lb2"])) if c["lb2"] is not None else {}
+        lik = FixedNoiseGaussianLikelihood(T(c["init"]), learn_additional_noise=c["learn"], **kw).to(dt)
+        if c["second0"] is not None:
+            lik.second_noise = T([c["second0"]])
+        for op in c["ops"]:
+            if op["op"] == "fixed":
+                if op["via"] == "setter":
+                    lik.noise = T(op["v"])
+                else:
+                    lik.initialize(noise=T(op["v"]))
+            elif op["op"] == "second":
+                if op["via"] == "setter":
+                    lik.second_noise = T([op["s"]])
+                elif op["via"] == "initialize":
+                    lik.initialize(second_noise=T([op["s"]]))
+                elif op["via"] == "raw":
+                    lik.initialize(**{"second_noise_covar.raw_noise": T([op["raw"]])})
+                else:
+                    lik.second_noise_covar.initialize(raw_noise=T([op["raw"]]))
+            else:
+                lik = lik.get_fantasy_likelihood(noise=T(op["nw"]))
+    return lik
 
 
 def fantasy_base(c):
@@ -318,7 +532,7 @@ def impl_run(c):
         if is_mismatch(c):
             # documented no-op for the fixed part; only the marginal is meaningful (R may be 0)
             return res
-        if c["fam"] == "multi":
+        if c["fam"] in ("multi", "multihist"):
             res["layout_same"] = marg._interleaved == dist._interleaved
             elp = lik.expected_log_prob(y, dist)
             lm = lik.log_marginal(y, dist)
@@ -340,6 +554,8 @@ def params_public(c, lik):
     with torch.no_grad():
         if c["fam"] == "gauss":
             return dict(noise=lik.noise)
+        if c["fam"] in ("hist", "gausshist", "multihist"):
+            return {}       # the model works from the specified values only
         if c["fam"] == "fantasy":
             # parameters of the SOURCE likelihood (the fantasy likelihood's stored noise is what is being checked)
             src = fantasy_base(c)
@@ -378,6 +594,41 @@ def coq_cfg(c, pub, B, b, N, call=None):
     fam = c["fam"]
     if fam == "gauss":
         return "(LHomo %s)" % C.qc_lit(bsel(pub["noise"], c["lb"], B, b, 1)[0].item())
+    if fam == "gausshist":
+        return "(LHomoHist %s %s %s)" % (C.qc_lit(c["noise"][0]), C.qc_vec([op["s"] for op in c["ops"]]),
+                                         "None" if c["call"] is None else "(Some %s)" % C.qc_vec(c["call"]))
+    if fam == "hist":
+        ops = []
+        for op in c["ops"]:
+            if op["op"] == "fixed":
+                ops.append("qOpFixed %s" % C.qc_vec(op["v"]))
+            elif op["op"] == "second":
+                ops.append("qOpSecond %s" % C.qc_lit(op["s"]))
+            else:
+                ops.append("qOpFantasy %s" % C.qc_vec(op["nw"]))
+        learned0 = None
+        if c["learn"]:
+            learned0 = c["second0"] if c["second0"] is not None else \
+                softplus_noise(0.0, DEFAULT_LB if c["lb2"] is None else c["lb2"])      # raw parameter starts at 0
+        if call is None and c["call"] is not None:
+            call = c["call"]
+        dflt = DEFAULT_FLOOR32 if c.get("dtype") == "float32" else DEFAULT_FLOOR
+        return "(LHist %s %s %s [%s] %s)" % (C.qc_lit(dflt if c["floor"] is None else c["floor"]),
+                                             C.qc_vec(c["init"]), opt_q(learned0), "; ".join(ops),
+                                             "None" if call is None else "(Some %s)" % C.qc_vec(call))
+    if fam == "multihist":
+        ops = []
+        for op in c["ops"]:
+            if op["op"] == "glob":
+                ops.append("qMGlob %s" % C.qc_lit(op["s"]))
+            elif op["op"] == "task":
+                ops.append("qMTask %s" % C.qc_vec(op["d"]))
+            else:
+                ops.append("qMFactor %s" % C.qc_mat(op["F"]))
+        return "(LMultiHist %d%%nat %d%%nat %s %s %s %s %s [%s])" % (
+            c["t"], c["rank"], "true" if c["ht"] else "false", "true" if c["il"] else "false",
+            C.qc_vec(c["task_noises"] or []), C.qc_mat(c["F"] or []), opt_q(c["noise"][0] if c["hg"] else None),
+            "; ".join(ops))
     if fam == "fantasy":
         if c["base"] == "gauss":
             return "(LHomo %s)" % C.qc_lit(pub["noise"].reshape(-1)[0].item())
@@ -404,7 +655,7 @@ def coq_cfg(c, pub, B, b, N, call=None):
 
 def flat_event(c, x):
     """event-shaped tensor of one batch element -> list in the flat order of the covariance"""
-    if c["fam"] == "multi":
+    if c["fam"] in ("multi", "multihist"):
         return (x if c["il"] else x.transpose(-1, -2)).reshape(-1).tolist()
     return x.tolist()
 
@@ -414,6 +665,8 @@ def case_batch(c):
     shapes = [c["db"]]
     if c["fam"] == "fantasy":
         shapes.append(c["fb"])
+    elif c["fam"] in ("hist", "gausshist"):
+        pass
     elif c["fam"] == "fixed":
         if c["learn"]:
             shapes.append(c["lb"])
@@ -432,7 +685,7 @@ def model_terms(c):
     pub = params_public(c, lik)
     B = case_batch(c)
     N = c["n"] * c.get("t", 1)
-    ev = 2 if c["fam"] == "multi" else 1
+    ev = 2 if c["fam"] in ("multi", "multihist") else 1
     with torch.no_grad():
         var = dist.covariance_matrix.diagonal(dim1=-1, dim2=-2)
     terms, idx = [], []
@@ -461,7 +714,8 @@ def list_model_term(c):
     cfgs = []
     for m, lik in zip(c["members"], liks):
         cfgs.append(coq_cfg(m, params_public(m, lik), [], (), m["n"]))
-    nz = "None" if c["noises"] is None else "(Some [%s])" % "; ".join(C.qc_vec(n) for n in c["noises"])
+    nz = "None" if c["noises"] is None else "(Some [%s])" % "; ".join(
+        "None" if n is None else "(Some %s)" % C.qc_vec(n) for n in c["noises"])
     return "(lst ([%s], %s, %s))" % ("; ".join(cfgs), C.nat_list([m["n"] for m in c["members"]]), nz)
 
 
@@ -469,7 +723,8 @@ def list_model_term(c):
 
 def describe(c):
     if c["fam"] == "list":
-        return dict(fam="list", members=[describe(m) for m in c["members"]], with_noise=c["noises"] is not None)
+        return dict(fam="list", members=[describe(m) for m in c["members"]], with_noise=c["noises"] is not None,
+                    noise_entries=None if c["noises"] is None else ["None" if n is None else "tensor" for n in c["noises"]])
     d = {k: c[k] for k in ("fam", "n", "t", "rank", "hg", "ht", "il", "lb", "db", "nb", "cb", "learn", "with_param",
                            "base", "n0", "fb", "via_model") if k in c}
     if c["fam"] == "fantasy":
@@ -477,6 +732,11 @@ def describe(c):
     if c["fam"] == "fixed":
         d["call_noise"] = c["call"] is not None
         d["size_mismatch"] = is_mismatch(c)
+    if c["fam"] in ("hist", "gausshist", "multihist"):
+        d["ops"] = [op.get("op", "noise") + ":" + op["via"] if "via" in op else op["op"] for op in c["ops"]]
+        d["call_noise"] = c.get("call") is not None
+        if c["fam"] == "hist":
+            d["floor"], d["lb2"], d["dtype"] = c["floor"], c["lb2"], c.get("dtype", "float64")
     return d
 
 
@@ -495,6 +755,21 @@ def key_of(c):
     if c["fam"] == "fixed":
         return "fixednoise:%s%s" % ("call-noise" if c["call"] is not None else "stored-noise",
                                     "+learned" if c["learn"] else "")
+    if c["fam"] == "hist":
+        last = {}
+        for op in c["ops"]:
+            last["fixed" if op["op"] in ("fixed", "fantasy") else "second"] = op["op"] + ("-" + op["via"] if "via" in op else "")
+        return "history:fixednoise%s%s:%s:%s" % ("+learned" if c["learn"] else "", ":float32" if c.get("dtype") == "float32" else "",
+                                               "+".join(last[k] for k in sorted(last)) or "constructor",
+                                               "call-noise" if c["call"] is not None else "stored-noise")
+    if c["fam"] == "gausshist":
+        return "history:gaussian:%s%s" % (c["ops"][-1]["via"], ":call-noise" if c["call"] is not None else "")
+    if c["fam"] == "multihist":
+        last = {}
+        for op in c["ops"]:
+            last[op["op"]] = op["op"] + "-" + op["via"]
+        return "history:multitask:%s:%s" % ("interleaved" if c["il"] else "noninterleaved",
+                                            "+".join(last[k] for k in sorted(last)))
     return "multitask:%s:%s:%s" % ("interleaved" if c["il"] else "noninterleaved",
                                    "rank0" if c["rank"] == 0 else "rankr",
                                    ("global" if c["hg"] else "") + ("+task" if c["ht"] else ""))
@@ -509,7 +784,12 @@ def compare_single(out, c, res, results, idx, B):
     N = c["n"] * c.get("t", 1)
     key = key_of(c)
     desc = dict(cfg=c)
-    multi = c["fam"] == "multi"
+    multi = c["fam"] in ("multi", "multihist")
+    f32 = c.get("dtype") == "float32"
+    # float32: C + R - C loses ~1e-6 |C|; the conditional variance (= R itself) is compared relatively
+    close = (lambda a, b: C.close(a, b, 5e-6, 1e-5)) if f32 else (lambda a, b: C.close(a, b, ATOL, RTOL))
+    close_cf = (lambda a, b: C.close(a, b, 1e-3, 1e-4)) if f32 else close
+    rtol_cond = 1e-5 if f32 else RTOL
     ok = True
     if list(res["added"].shape) != B + [N, N]:
         out.fail(key + ":shape", "marginal covariance has shape %s, expected %s" % (list(res["added"].shape), B + [N, N]),
@@ -556,7 +836,8 @@ def compare_single(out, c, res, results, idx, B):
         if multi and not c["il"]:
             n, t = c["n"], c["t"]
             diagR = [diagR[a * n + i] for i in range(n) for a in range(t)]
-        if len(cvf) != N or any(not close(x, v) for x, v in zip(cvf, diagR)) or res["condmean_delta"] != 0.0:
+        # the conditional variance IS the noise (no cancellation against C): compared relatively, at every magnitude
+        if len(cvf) != N or any(not C.close(x, v, 1e-30, rtol_cond) for x, v in zip(cvf, diagR)) or res["condmean_delta"] != 0.0:
             out.fail(key + ":conditional", "likelihood(f) is not N(f, diag R)", dict(cfg=c, batch_index=list(b)),
                      impl=cvf, model=diagR)
             ok = False
@@ -569,7 +850,7 @@ def compare_single(out, c, res, results, idx, B):
                 want = [mpmath.fsum(mod[flat(i, a)] for a in range(t)) for i in range(n)]
             else:
                 want = mod
-            if len(g) != len(want) or any(not close(x, w) for x, w in zip(g, want)):
+            if len(g) != len(want) or any(not close_cf(x, w) for x, w in zip(g, want)):
                 out.fail(key + ":" + name, "%s differs from the closed form" % name, dict(cfg=c, batch_index=list(b)),
                          impl=g, model=[float(w) for w in want])
                 ok = False
@@ -578,7 +859,7 @@ def compare_single(out, c, res, results, idx, B):
 
 def run_list_impl(c):
     ll, liks, dists, ys = list_build(c)
-    kw = {} if c["noises"] is None else dict(noise=[T(n) for n in c["noises"]])
+    kw = {} if c["noises"] is None else dict(noise=[None if n is None else T(n) for n in c["noises"]])
     with torch.no_grad():
         margs = ll(*dists, **kw)
         added = [(m.covariance_matrix - d.covariance_matrix).tolist() for m, d in zip(margs, dists)]
@@ -594,7 +875,8 @@ def run_list_impl(c):
 
 
 def compare_list(out, c, res, r):
-    key = "likelihoodlist:" + ("noise-kwarg" if c["noises"] is not None else "plain")
+    key = "likelihoodlist:" + ("plain" if c["noises"] is None else
+                               "noise-kwarg:none-entries" if any(n is None for n in c["noises"]) else "noise-kwarg")
     rd = C.Reader(r)
     if rd.int() != 1:
         out.fail(key + ":model", "model rejected a well-formed LikelihoodList call", dict(cfg=c))
@@ -609,7 +891,7 @@ def compare_list(out, c, res, r):
         N = len(R)
         if len(add) != N or any(not close(add[i][j], R[i][j]) for i in range(N) for j in range(N)):
             ok = False
-        if len(cv) != N or any(not close(cv[i], R[i][i]) for i in range(N)):
+        if len(cv) != N or any(not C.close(cv[i], R[i][i], 1e-30, RTOL) for i in range(N)):
             ok = False
     if res["elp"] is not None and res["elp"][0] != res["elp"][1]:
         ok = False
@@ -674,9 +956,23 @@ def run(out, ctx):
                 "old points followed by the appended points: the model stores [old; new_1; ...; new_k]; "
                 "event sizes 1..4 (n*t <= 16), likelihood / stored-noise / call-noise / distribution batch shapes of rank "
                 "0..2 drawn from %s (any broadcastable combination, multitask included); every element of the broadcast batch is compared; "
-                "non-trivial = flattened event size >= 2" % BATCHES)
+                "non-trivial = flattened event size >= 2; "
+                "plus SPECIFICATION HISTORIES: FixedNoiseGaussianLikelihood (learned noise on/off, float64 and float32, default and custom "
+                "settings.min_fixed_noise floor, default / custom noise_constraint) after 0..3 operations out of {lik.noise = v, "
+                "initialize(noise=v) (also with another length), second_noise setter / initialize / raw parameter (two spellings), "
+                "get_fantasy_likelihood(noise=)} with or without a final call-time noise; GaussianLikelihood and MultitaskGaussianLikelihood "
+                "with 1..3 re-specifications of noise / task_noises / task_noise_covar_factor via setter, initialize or raw parameter; the model "
+                "folds the SPECIFIED values (last specification of each component wins; constructor and fantasy values are rounded up to the "
+                "floor, setter and call-time values are taken as passed); noise magnitudes k/16 * 2^e from 2^-40 to 8 (below every floor) for "
+                "constructor, fantasy and call-time noise, setter values at or above the floor; LikelihoodList noise lists with every "
+                "pattern of tensor / None entries for 1..3 members (FixedNoise, FixedNoise-with-history and Gaussian members; None entries only "
+                "for FixedNoise members); the conditional variance is compared relatively (1e-9; float32 1e-5)" % BATCHES)
     out.extra["tolerances"] = {"all": "1e-9 abs + 1e-9 rel"}
     evaluate(out, cfgs, "C12")
+    out.extra["not_modelled"] = ["a value below settings.min_fixed_noise passed through the `noise` SETTER (stored as passed by the "
+                                 "current code; documentation only describes rounding of 'supplied' values with a warning)",
+                                 "a None noise entry for a GaussianLikelihood member of a LikelihoodList (raises AttributeError in "
+                                 "_HomoskedasticNoiseBase.forward; only a Tensor kwarg is documented there)"]
     out.tested_not_proved = ["torch broadcasting of batch shapes (the model is per batch element; see C08)",
                              "float64 rounding of softplus / log / F F^T in the implementation"]
 
